@@ -42,18 +42,27 @@ def abs_points(s):
         if isinstance(seg, svg.Move):
             res.append(("M", [(seg.end.x, seg.end.y)]))
         else:
-            res.append((type(seg).__name__[0], [(q.x, q.y) for q in (seg.point(t) for t in (0.0, 0.25, 0.5, 0.75, 1.0))]))
+            pts = [(q.x, q.y) for q in (seg.point(t) for t in (0.0, 0.25, 0.5, 0.75, 1.0))]
+            if isinstance(seg, svg.Arc) and isinstance(s, svg.Path):
+                # arcs of a <path> travel through path data, whose radii and rotation Arc.d() prints with six significant
+                # digits (the C07 finding): their interior points get that slack, the end points stay strict
+                res.append(("A", pts, 5e-4 * max(seg.rx, seg.ry)))
+            else:
+                res.append((type(seg).__name__[0], pts))
     return res
 
 
 def same_geometry(a, b, tol):
     if len(a) != len(b):
         return "segment count %d vs %d" % (len(a), len(b))
-    for i, ((ka, pa), (kb, pb)) in enumerate(zip(a, b)):
+    for i, (sa, sb) in enumerate(zip(a, b)):
+        ka, pa, kb, pb = sa[0], sa[1], sb[0], sb[1]
         if ka != kb:
             return "segment %d kind %s vs %s" % (i, ka, kb)
-        for (x1, y1), (x2, y2) in zip(pa, pb):
-            if abs(x1 - x2) > tol or abs(y1 - y2) > tol:
+        slack = max(sa[2] if len(sa) > 2 else 0.0, sb[2] if len(sb) > 2 else 0.0)
+        for j, ((x1, y1), (x2, y2)) in enumerate(zip(pa, pb)):
+            t_ = tol if j in (0, len(pa) - 1) else max(tol, slack)
+            if abs(x1 - x2) > t_ or abs(y1 - y2) > t_:
                 return "segment %d point (%r, %r) vs (%r, %r)" % (i, x1, y1, x2, y2)
     return None
 
